@@ -16,6 +16,31 @@ if 'naming_chain' in cfg:
         names.append(w.name)
     out['names'] = names
     out['distinct'] = all(a != b for a, b in zip(names, names[1:]))
+elif 'naming_mixed' in cfg:
+    w = build_world('io_simple')
+    base = copy.deepcopy(w.config)
+    base['name'] = cfg['name']
+    w = build_world(cfg['name'], base)
+    names, cnames = [w.name], [w.config.get('name')]
+    for kd, explicit in cfg['naming_mixed']:
+        if kd == 'build':
+            w = build_from_world(w, {}, None)
+        elif kd == 'named':
+            w = build_from_world(w, {}, explicit)
+        else:
+            w = scale_from_world(w, radius_scale=1.25)
+        names.append(w.name)
+        cnames.append(w.config.get('name'))
+    out['names'], out['config_names'] = names, cnames
+    out['distinct'] = all(a != b for a, b in zip(names, names[1:]))
+    out['config_records_name'] = all(a == b for a, b in zip(names, cnames))
+elif cfg.get('kind') == 'derived_mass':
+    w = build_world('io_simple')
+    out['config_has_mass_after_build'] = 'mass' in w.config
+    w2 = scale_from_world(w, radius_scale=0.5)
+    s2 = float(sum(l.mass for l in w2.layers))
+    out['scaled_world_mass'], out['scaled_sum_of_layer_masses'] = float(w2.mass), s2
+    out['bad'] = abs(float(w2.mass) - s2) > 1e-9 * s2
 elif cfg.get('kind') == 'mass_below':
     from TidalPy.constants import G
     w = build_world(cfg.get('world', 'earth_simple'))
